@@ -127,6 +127,9 @@ func fixed() []rtgen.CaseT {
 	longs := []rtgen.RegT{reg(G, long64), reg(G, "/documentation-and-reference-material/administration/:x")}
 	items := []rtgen.RegT{reg(G, "/items/:id"), reg("DELETE", "/items/:id", rtgen.ConsT{Name: "id", Kind: "int"}), reg("POST", "/items/new")}
 	warm := []rtgen.RegT{reg(G, "/posts/:year/:slug", rtgen.ConsT{Name: "year", Kind: "int"}, rtgen.ConsT{Name: "slug", Kind: "regex", Arg: "[a-z-]+"})}
+	p8 := "/:p1/:p2/:p3/:p4/:p5/:p6/:p7/:p8"
+	ovfNames := []rtgen.RegT{reg(G, p8+"/:x/k"), reg(G, p8+"/:y/:x/m", rtgen.ConsT{Name: "y", Kind: "int"}, rtgen.ConsT{Name: "x", Kind: "int"}),
+		reg(G, p8+"/:z/w/*", rtgen.ConsT{Name: "z", Kind: "int"})}
 	mk := func(s []rtgen.RegT, m, p string, nr bool) rtgen.CaseT {
 		return rtgen.CaseT{Script: s, Req: rtgen.ReqT{Method: m, Path: p}, NoRoute: nr}
 	}
@@ -161,6 +164,12 @@ func fixed() []rtgen.CaseT {
 		{Script: k01d, Req: rtgen.ReqT{Method: G, Path: "/nothing", Cancelled: true}, NoRoute: true},
 		mk(k01e, G, "/f/abc/x", false), mk(k01e, G, "/f/12/x/y", false), mk(k01e, "POST", "/g/a/b", false), mk(k01e, "POST", "/g/a/7", false), mk(k01e, "PUT", "/g/a/7", false),
 		mk([]rtgen.RegT{reg(G, "/s/*"), reg(G, "/s/:x")}, G, "/s/1", false), mk([]rtgen.RegT{reg(G, "/s/*")}, G, "/s", false),
+		// K01a (repaired): values are named after the matched route's own pattern, past the 8 inline slots too
+		// (the shared 9th param node holds the name x of the first route; the second route calls that position y
+		// and its own 10th parameter x; a wildcard route names the 9th position z and captures the rest)
+		mk(ovfNames, G, "/1/2/3/4/5/6/7/8/9/10/m", false), mk(ovfNames, G, "/1/2/3/4/5/6/7/8/nine/10/m", false),
+		mk(ovfNames, G, "/1/2/3/4/5/6/7/8/9/k", false), mk(ovfNames, G, "/1/2/3/4/5/6/7/8/9/w/a/b", false),
+		mk(ovfNames, "PUT", "/1/2/3/4/5/6/7/8/9/10/m", false),
 	}
 }
 
